@@ -54,6 +54,30 @@ def full_snapshot(expr, cm, fn):
   return False
 
 
+def _reinject_then_clear(cx, fn):
+  """fn passes every element of a complete snapshot of self.queue to events.metricGenerated and clears the queue only
+  after that loop is exhausted (decided on value terms: the queue may be held in a local)."""
+  from ..rulelib import ValueNumbers
+  vn = ValueNumbers(cx, fn)
+  g = cx.cfg(fn)
+  Q = ('attr', ('param', fn.params[0]), 'queue')
+  SNAPS = (('call', 'list', Q), ('call', 'tuple', Q), ('meth', 'copy', Q))
+  clears = [n for n in g.nodes for c in g.calls(n) if isinstance(c.func, ast.Attribute) and c.func.attr == 'clear' and
+            vn.term(c.func.value, n) == Q]
+  good = []
+  for n in g.nodes:
+    if n.kind == 'loop' and isinstance(n.owner, ast.For) and vn.term(n.owner.iter, n) in SNAPS:
+      tgt = {x.id for x in ast.walk(n.owner.target) if isinstance(x, ast.Name)}
+      gen = [c for c in ast.walk(n.owner) if isinstance(c, ast.Call) and (dotted(c.func) or '').endswith('metricGenerated')]
+      passes = any(len(c.args) == 2 and all(isinstance(a, ast.Name) and a.id in tgt for a in c.args) for c in gen)
+      if passes and not loop_exits(n.owner, (ast.Break, ast.Return, ast.Continue)):
+        good.append(n)
+
+  def exhausted(a, lab, b):
+    return a in good and isinstance(lab, tuple) and lab[0] == 'F'
+  return bool(clears) and bool(good) and all(c not in g.reach([g.entry], removed_edge=exhausted, normal_only=True) for c in clears)
+
+
 def rule_reinject(check, cx, cm, rule):
   """every clear() of a send queue is preceded by re-injection of a full snapshot of it."""
   for op in [o for o in cm.ops if o.op == 'clear']:
@@ -395,9 +419,7 @@ def run(check):
   if ff:
     rj = ff[0].methods.get('reinjectDatapoints')
     if rj is not None:
-      t = unparse(rj.node).replace(' ', '')
-      loop_ok = any(isinstance(n, ast.For) and isinstance(n.iter, ast.Name) for n in ast.walk(rj.node)) and 'list(self.queue)' in t
-      if loop_ok and 'metricGenerated' in t and t.find('metricGenerated') < t.find('self.queue.clear()'):
+      if _reinject_then_clear(cx, rj):
         r_r.ok('the no-destination buffer is re-injected from a full snapshot before it is cleared', rj.loc())
       else:
         r_r.violate('no-destination buffer lost', rj, None, 'FakeClientFactory.reinjectDatapoints does not re-inject a full snapshot of '
